@@ -424,11 +424,30 @@ func getAccountsForPrefix(accounts *analyzer.AccountIndex, prefix string) []stri
 		return accounts.All
 	}
 
-	if accs, ok := accounts.ByPrefix[prefix]; ok {
-		return accs
+	// The typed parent is matched without regard to letter case, like the rest of
+	// the fragment: "Assets:" finds assets:bank, and "expenses:" finds Expenses:Rent
+	// next to expenses:food.
+	var keys []string
+	for key := range accounts.ByPrefix {
+		if strings.EqualFold(key, prefix) {
+			keys = append(keys, key)
+		}
 	}
-
-	return accounts.All
+	if len(keys) == 0 {
+		return accounts.All
+	}
+	sort.Strings(keys)
+	seen := make(map[string]bool)
+	var out []string
+	for _, key := range keys {
+		for _, acc := range accounts.ByPrefix[key] {
+			if !seen[acc] {
+				seen[acc] = true
+				out = append(out, acc)
+			}
+		}
+	}
+	return out
 }
 
 func extractCurrentTagName(line string, pos int) string {
